@@ -182,7 +182,7 @@ def gen_query(rng, sc, kind=None):
     lo, hi = alt_range(sc)
     lats, lons = sc['lats'], sc['lons']
     kind = kind or rng.choices(['inside', 'node', 'out-lat', 'out-lon', 'out-high', 'out-low', 'too-high', 'tail', 'head'],
-                               [52, 8, 5, 5, 4, 4, 2, 10, 10])[0]
+                               [46, 8, 5, 5, 4, 4, 2, 13, 13])[0]
     if kind in ('tail', 'head') and sc['wind'] == 'varying':
         kind = 'inside'
     lat = rng.uniform(lats[0], lats[-1])
@@ -377,7 +377,7 @@ def extract(chk: Check):
     hdr = HEADER + 'From Gen Require Import C16_Extracted.\n'
     probes = [(1.0, 0.0, 0.0, 1.0), (200.0, 30.0, 12.5, -7.25), (150.0, 271.0, -40.0, 3.0)]
     exprs = [f'@C16_Extracted.isa_pressure FNum {coq_float(a)}' for a in alts]
-    exprs += ['(' + ', '.join(f'@ground_speed_kernel FNum {" ".join(coq_float(x) for x in p)}, '
+    exprs += ['(' + ', '.join(f'@ground_speed_query FNum {" ".join(coq_float(x) for x in p)}, '
                               f'@gs FNum true {" ".join(coq_float(x) for x in p)}, '
                               f'@gs FNum false {" ".join(coq_float(x) for x in p)}' for p in probes) + ')']
     vals = chk.coq_eval(hdr, exprs, label='xcheck')
@@ -393,7 +393,7 @@ def extract(chk: Check):
         return True
     if all(close(k, s, rel=1e-14) for k, e, s in trip):
         return False
-    chk.broken('link:ground_speed_kernel', f'regenerated kernel is neither reading of the model at binary64: {trip}')
+    chk.broken('link:ground_speed_query', f'regenerated kernel is neither reading of the model at binary64: {trip}')
     return None
 
 
@@ -561,7 +561,7 @@ def run(chk: Check):
     rng = chk.rng
     cases = load_corpus(chk)
     pairs = []
-    nscenes = chk.n(22, 160)
+    nscenes = chk.n(22, 90)
     per = chk.n(24, 32)
     sid = 1000
     for k in range(nscenes):
